@@ -76,6 +76,18 @@ theorem returned_le_lowres (pd0 : Nat) (acts : List Act) (a : Nat)
   obtain ⟨tso, ver, e, l⟩ := (inv.thr a).t3d ha
   exact ⟨tso, by simp [St.lowTs, e], l⟩
 
+/-- `ExtractPhysical`/`ExtractLogical` invert `ComposeTS` for every physical part below 2^46 ms and every 18-bit logical part. -/
+theorem compose_extract_roundtrip (p l : Int) (hp0 : 0 ≤ p) (hp : p < 2 ^ 46) (hl0 : 0 ≤ l) (hl : l < 2 ^ 18) :
+    extractPhysical (composeTS p l) = p ∧ extractLogical (composeTS p l) = l := by
+  simp only [extractPhysical, extractLogical, composeTS, toU64, shiftMul, two64, Gen.physicalShiftBits]
+  have e : ((p * ((2 ^ 18 : Nat) : Int) + l) % ((2 ^ 64 : Nat) : Int)).toNat = p.toNat * 2 ^ 18 + l.toNat := by omega
+  rw [e]
+  constructor
+  · have : (p.toNat * 2 ^ 18 + l.toNat) / 2 ^ 18 = p.toNat := by omega
+    rw [this]; omega
+  · have : (p.toNat * 2 ^ 18 + l.toNat) % 2 ^ 18 = l.toNat := by omega
+    rw [this]; omega
+
 /-- A lock is reported expired exactly when its remaining time is not positive — including the
     "scope unknown" branch (`last = none`) — for every lock timestamp and every TTL whose int64 arithmetic
     does not overflow (`ttl < 2^63 - 2^46`; ExtractPhysical is < 2^46). -/
@@ -199,6 +211,9 @@ example : isDone ((run (init 10) (getAll 0 ++ getAll 1)).thr 0).pc = true
 example : isExpired (some (composeTS 1000 5)) (composeTS 900 0) 100 = true
     ∧ isExpired (some (composeTS 1000 5)) (composeTS 900 0) 101 = false
     ∧ untilExpired (some (composeTS 1000 5)) (composeTS 900 0) 101 = 1 := by decide
+
+-- compose_extract_roundtrip
+example : extractPhysical (composeTS 1000 5) = 1000 ∧ extractLogical (composeTS 1000 5) = 5 := by decide
 
 -- commit_wait_strict: the first two attempts lag, the third passes
 example : getTimestampForCommit 100 1000000000 [50, 80, 120] = .ok 120 := by decide
